@@ -4,7 +4,7 @@ import json, os, re, shutil
 import vlib
 
 KEEP = {"sess_start", "recv", "reject", "conn_add", "known_add", "established", "conn_del", "known_del", "sess_end",
-        "ru_self", "ru_seen", "ru_dupnotice", "ru_apply", "flood", "mk_update", "rebuild", "shutdown", "h_status", "seen_expire", "ad_send", "ad_local", "ad_withdraw", "ad_recv"}
+        "ru_self", "ru_seen", "ru_dupnotice", "ru_apply", "flood", "mk_update", "rebuild", "shutdown", "h_status", "seen_expire", "node_new", "ad_send", "ad_local", "ad_withdraw", "ad_recv"}
 
 
 def _num(x, scale):
@@ -93,6 +93,7 @@ def normalise(raw_events):
         ranks = {v: i + 1 for i, v in enumerate(sorted(eps))}
         rank = lambda v: 0 if not v else ranks[int(v)]
         out.append({"ev": "reset", "self": self_id, "epoch": rank(own_epoch)})
+        lives = 0
         for e in evs:
             ev = e.get("ev")
             if ev not in KEEP:
@@ -147,6 +148,11 @@ def normalise(raw_events):
                                 "known": _known(e.get("known"), scale)})
                 elif ev == "shutdown":
                     out.append({"ev": ev})
+                elif ev == "node_new":
+                    lives += 1
+                    if lives > 1:
+                        # a later instance of this node ID was created with the very same start epoch
+                        out.append({"ev": "node_new", "k": lives})
                 elif ev == "seen_expire":
                     out.append({"ev": ev, "id": e["id"]})
                 elif ev == "ad_local":
